@@ -78,4 +78,479 @@ theorem ind_rootEff {K : List String} {L L' : List SplitE} (h : Ind K L L') : Ro
       · exact ⟨s', by simp, h1.symm'⟩
       · exact ⟨s', by simp, h2.symm'⟩
 
+/-! ## one removal below a tip root that is kept -/
+
+theorem length_le_one_of_all_eq {l : List String} {r : String} (hn : l.Nodup) (h : ∀ a ∈ l, a = r) :
+    l.length ≤ 1 := by
+  match l, hn, h with
+  | [], _, _ => simp
+  | [_], _, _ => simp
+  | a :: b :: _, hn, h =>
+    have ha := h a (by simp)
+    have hb := h b (by simp)
+    rw [List.nodup_cons] at hn
+    exact absurd (by simp [ha, hb]) hn.1
+
+/-- below a tip root `r`, the only branch of the root is a trivial split of any set of taxa:
+    everything but `r` is below it -/
+theorem lightSize_below_tip_root {K A : List String} {r : String} (hK : K.Nodup) (hA : A.Nodup)
+    (h : ∀ a ∈ K, a = r ∨ a ∈ A) : ¬ 2 ≤ lightSize K A := by
+  unfold lightSize
+  simp only
+  have c := filter_length_compl K A.contains
+  have e := count_swap hK hA
+  have : (K.filter fun n => !A.contains n).length ≤ 1 := by
+    apply length_le_one_of_all_eq (r := r) (hK.filter _)
+    intro a ha
+    simp only [List.mem_filter, Bool.not_eq_true', List.contains_eq_mem, decide_eq_false_iff_not] at ha
+    exact (h a ha.1).resolve_right ha.2
+  omega
+
+theorem tipNames_rt (d : NodeD) (p : Nat) (e : EdgeD) (X : T) :
+    (T.node d p [(e, X)]).tipNames = d.name :: X.leaves := by
+  simp [T.tipNames, T.name, leavesL]
+
+theorem removeTip_rt_keep (x : String) (d : NodeD) (p : Nat) (e : EdgeD) (X : T) (hx : d.name ≠ x)
+    (hns : X.noSingleBelow = true) (hnd : (d.name :: X.leaves).Nodup) (hcount : 3 ≤ X.leaves.length) :
+    ∃ e' X', removeTip x (.node d p [(e, X)]) = .ok (.node d p [(e', X')]) ∧
+      (d.name :: X'.leaves).Perm ((d.name :: X.leaves).erase x) ∧ X'.noSingleBelow = true ∧
+      ∀ K : List String, K.Nodup → (∀ a ∈ K, a ∈ d.name :: X'.leaves) →
+        Ind K (splitsL [(e, X)]) (splitsL [(e', X')]) := by
+  have hXn : X.leaves.Nodup := (List.nodup_cons.1 hnd).2
+  have hndk : (leavesL [(e, X)]).Nodup := by simpa [leavesL] using hXn
+  have hl := rmKids_leaves x [(e, X)]
+  have hn := rmKids_ns x [(e, X)] (by simpa [noSingleL] using hns)
+  have hI := fun K (hxK : x ∉ K) => rmKids_ind K x hxK [(e, X)] hndk
+  have hcond : (([(e, X)] : Kids).length == 1 && d.name == x) = false := by simp [hx]
+  have herase : (d.name :: X.leaves).erase x = d.name :: X.leaves.erase x := by
+    simp [hx]
+  have hxK : ∀ (L : List String), L.Perm (X.leaves.erase x) → ∀ K : List String, (∀ a ∈ K, a ∈ d.name :: L) → x ∉ K := by
+    intro L hL K hK hm
+    rcases List.mem_cons.1 (hK x hm) with h | h
+    · exact hx h.symm
+    · exact (hXn.mem_erase_iff.1 (hL.mem_iff.1 h)).1 rfl
+  simp only [removeTip, hcond, Bool.false_eq_true, if_false]
+  simp only [leavesL_single] at hl
+  cases hk : rmKids x [(e, X)] with
+  | notFound =>
+    rw [hk] at hl
+    simp only [KOutLeaves] at hl
+    refine ⟨e, X, rfl, ?_, hns, fun K _ _ => Ind.refl _⟩
+    rw [herase, List.erase_of_not_mem hl]
+  | set ks =>
+    rw [hk] at hl hn
+    obtain ⟨a1, a2, _⟩ := hl
+    obtain ⟨b1, b2⟩ := hn
+    match ks, b1, b2, a2, hk with
+    | [(e', X')], _, b2, a2, hk =>
+      simp only [leavesL_single] at a2
+      refine ⟨e', X', rfl, ?_, by simpa [noSingleL] using b2, fun K _ hK => ?_⟩
+      · rw [herase]; exact a2.cons _
+      · have := hI K (hxK _ a2 K hK)
+        rw [hk] at this; exact this
+  | spl i ks ei e2 c =>
+    rw [hk] at hl hn
+    obtain ⟨a1, a2⟩ := hl
+    obtain ⟨b1, b2, b3⟩ := hn
+    match ks, b1, a2, hk with
+    | [], _, a2, hk =>
+      simp only [leavesL, List.nil_append] at a2
+      refine ⟨_, c, rfl, ?_, b3, fun K hKn hK => ?_⟩
+      · rw [herase]; exact a2.cons _
+      · have := hI K (hxK _ a2 K hK)
+        rw [hk] at this
+        have hcn : c.leaves.Nodup := a2.nodup_iff.2 (hXn.erase x)
+        have hflag : ¬ 2 ≤ lightSize K c.leaves :=
+          lightSize_below_tip_root hKn hcn (fun a ha => List.mem_cons.1 (hK a ha))
+        have h2 := this (decide (([] : Kids).length + 1 > 1) && !c.isLeaf) (fun h => absurd h hflag)
+        simpa [splitsL_single, splitsL] using h2
+  | del i ks =>
+    rw [hk] at hl hn
+    obtain ⟨a1, a2⟩ := hl
+    obtain ⟨b1, _⟩ := hn
+    match ks, b1, a2 with
+    | [], _, a2 =>
+      exfalso
+      have : (X.leaves.erase x).length = 0 := by rw [← a2.length_eq]; simp [leavesL]
+      rw [List.length_erase_of_mem a1] at this
+      omega
+
+/-! ## the tip root is removed: its neighbour takes its place -/
+
+theorem rootAfterLoss_spec (d : NodeD) (p : Nat) (ks : Kids) (h2 : 2 ≤ ks.length) (hns : noSingleL ks = true)
+    (hnd : (leavesL ks).Nodup) (hcount : 3 ≤ (leavesL ks).length) :
+    ∃ t', rootAfterLoss d p ks = .ok t' ∧ t'.tipNames.Perm (leavesL ks) ∧ t'.noSingle = true ∧
+      3 ≤ t'.kids.length ∧
+      ∀ K : List String, (∀ a ∈ K, a ∈ leavesL ks) → Ind K (splitsL ks) t'.splits := by
+  match ks, h2, hns, hnd, hcount with
+  | [(e0, k0), (e1, k1)], _, hns, hnd, hcount =>
+    simp only [noSingleL, Bool.and_true, Bool.and_eq_true] at hns
+    simp only [leavesL, List.append_nil] at hnd hcount
+    have hdis := disjoint_of_nodup_append hnd
+    have n0 : k0.leaves.Nodup := (List.nodup_append.1 hnd).1
+    have n1 : k1.leaves.Nodup := (List.nodup_append.1 hnd).2.1
+    have hL : splitsL [(e0, k0), (e1, k1)] =
+        [(⟨k0.leaves, e0, k0.isLeaf⟩ : SplitE)] ++ (k0.splitsBelow ++ ([(⟨k1.leaves, e1, k1.isLeaf⟩ : SplitE)] ++ k1.splitsBelow)) := by
+      simp [splitsL]
+    have hLv : leavesL [(e0, k0), (e1, k1)] = k0.leaves ++ k1.leaves := by simp [leavesL]
+    rw [hL, hLv]
+    by_cases h0 : k0.kids.length > 1
+    · have hk0 : k0.kids ≠ [] := by intro h'; rw [h'] at h0; simp at h0
+      have hlen : 3 ≤ (k0.kids ++ [(fuseEdge e0 e1 (!k1.isLeaf), reattach k1)]).length := by simp; omega
+      refine ⟨T.node k0.d 0 (k0.kids ++ [(fuseEdge e0 e1 (!k1.isLeaf), reattach k1)]),
+        by simp only [rootAfterLoss, h0, if_true], ?_, ?_, hlen, fun K hK => ?_⟩
+      · rw [tipNames_of_ne1 _ (by simp only [T.kids_node]; omega)]
+        simp [leavesL_append, leavesL_single, leaves_of_inner k0 hk0]
+      · have := hns.1
+        obtain ⟨d', p', k'⟩ := k0
+        simp only [T.noSingleBelow, Bool.and_eq_true] at this
+        simp [T.noSingle, noSingleL_append, noSingleL_single, this.2, hns.2]
+      · rw [splits_node, splitsL_append, splitsL_single, ← splitsBelow_eq k0]
+        simp only [reattach_leaves, reattach_isLeaf, reattach_splitsBelow]
+        have hf := Ind.fuse (K := K) ⟨k0.leaves, e0, k0.isLeaf⟩ ⟨k1.leaves, e1, k1.isLeaf⟩
+          ⟨k1.leaves, fuseEdge e0 e1 (!k1.isLeaf), k1.isLeaf⟩ n0 n1 n1
+          (Or.inr fun a ha => hdis a (hK a ha)) (sameSplit.rfl' _ _) (!k1.isLeaf) (flag_of_leaf K k1) (Or.inl rfl)
+        have := Ind.fuseRoot _ _ _ k0.splitsBelow k1.splitsBelow hf
+        simpa using this
+    · by_cases h1 : k1.kids.length > 1
+      · have hk1 : k1.kids ≠ [] := by intro h'; rw [h'] at h1; simp at h1
+        have hlen : 3 ≤ (k1.kids ++ [(fuseEdge e0 e1 (!k0.isLeaf), reattach k0)]).length := by simp; omega
+        refine ⟨T.node k1.d 0 (k1.kids ++ [(fuseEdge e0 e1 (!k0.isLeaf), reattach k0)]),
+          by simp only [rootAfterLoss, h0, h1, if_true, if_false], ?_, ?_, hlen, fun K hK => ?_⟩
+        · rw [tipNames_of_ne1 _ (by simp only [T.kids_node]; omega)]
+          have : (leavesL k1.kids ++ k0.leaves).Perm (k0.leaves ++ k1.leaves) := by
+            rw [← leaves_of_inner k1 hk1]; exact List.perm_append_comm
+          simpa [leavesL_append, leavesL_single] using this
+        · have := hns.2
+          obtain ⟨d', p', k'⟩ := k1
+          simp only [T.noSingleBelow, Bool.and_eq_true] at this
+          simp [T.noSingle, noSingleL_append, noSingleL_single, this.2, hns.1]
+        · rw [splits_node, splitsL_append, splitsL_single, ← splitsBelow_eq k1]
+          simp only [reattach_leaves, reattach_isLeaf, reattach_splitsBelow]
+          have hdis' : ∀ a ∈ K, (a ∈ k1.leaves ↔ a ∉ k0.leaves) := by
+            intro a ha
+            have := hdis a (hK a ha)
+            constructor
+            · intro h h'; exact (this.1 h') h
+            · intro h; exact Decidable.by_contra fun h' => h (this.2 h')
+          have hf := Ind.fuse (K := K) ⟨k1.leaves, e1, k1.isLeaf⟩ ⟨k0.leaves, e0, k0.isLeaf⟩
+            ⟨k0.leaves, fuseEdge e0 e1 (!k0.isLeaf), k0.isLeaf⟩ n1 n0 n0
+            (Or.inr hdis') (sameSplit.rfl' _ _) (!k0.isLeaf) (flag_of_leaf K k0) (Or.inr rfl)
+          have sw := Ind.swap (K := K)
+            ([(⟨k0.leaves, e0, k0.isLeaf⟩ : SplitE)] ++ k0.splitsBelow)
+            ([(⟨k1.leaves, e1, k1.isLeaf⟩ : SplitE)] ++ k1.splitsBelow)
+          have fr := Ind.fuseRoot _ _ _ k1.splitsBelow k0.splitsBelow hf
+          exact Ind.trans (by simpa [List.append_assoc] using sw) (by simpa using fr)
+      · exfalso
+        have e0' := kids_of_noSingle_le1 k0 hns.1 h0
+        have e1' := kids_of_noSingle_le1 k1 hns.2 h1
+        rw [leaves_of_leaf k0 e0', leaves_of_leaf k1 e1'] at hcount
+        simp at hcount
+  | a :: b :: c :: r, _, hns, _, _ =>
+    refine ⟨T.node d p (a :: b :: c :: r), rfl, ?_, hns, by simp, fun K _ => Ind.refl _⟩
+    rw [tipNames_of_ne1 _ (by simp)]
+    exact List.Perm.refl _
+
+theorem removeTip_rt_remove (d : NodeD) (p : Nat) (e : EdgeD) (X : T)
+    (hns : X.noSingleBelow = true) (hnd : (d.name :: X.leaves).Nodup) (hcount : 3 ≤ X.leaves.length) :
+    ∃ t', removeTip d.name (.node d p [(e, X)]) = .ok t' ∧ t'.tipNames.Perm X.leaves ∧ t'.noSingle = true ∧
+      3 ≤ t'.kids.length ∧
+      ∀ K : List String, (∀ a ∈ K, a ∈ X.leaves) → Ind K (splitsL [(e, X)]) t'.splits := by
+  have hXn : X.leaves.Nodup := (List.nodup_cons.1 hnd).2
+  obtain ⟨dx, px, kx⟩ := X
+  have hkx : kx ≠ [] := by
+    intro h0; subst h0; simp [T.leaves] at hcount
+  have hlv : (T.node dx px kx).leaves = leavesL kx := leaves_node_ne dx px hkx
+  simp only [T.noSingleBelow, Bool.and_eq_true, bne_iff_ne, ne_eq] at hns
+  have h2 : 2 ≤ kx.length := by
+    match kx, hkx, hns.1 with
+    | [_], _, h => exact absurd rfl h
+    | _ :: _ :: _, _, _ => simp
+  rw [hlv] at hXn hcount ⊢
+  obtain ⟨t', g1, g2, g3, g4, g5⟩ := rootAfterLoss_spec dx 0 kx h2 hns.2 hXn hcount
+  refine ⟨t', ?_, g2, g3, g4, fun K hK => ?_⟩
+  · simp [removeTip, g1]
+  · have hdrop : Ind K [(⟨leavesL kx, e, (T.node dx px kx).isLeaf⟩ : SplitE)] [] :=
+      Ind.dropTop _ hXn hK
+    have := Ind.append hdrop (Ind.refl (K := K) (splitsL kx))
+    have h1 : Ind K (splitsL [(e, T.node dx px kx)]) (splitsL kx) := by
+      simpa [splitsL_single, hlv, T.splitsBelow] using this
+    exact Ind.trans h1 (g5 K hK)
+
+/-! ## the loop of `RemoveTips` on a tree whose root is a tip -/
+
+theorem filter_erase_flag {l : List String} (hnd : l.Nodup) (n : String) (r : List String) :
+    (l.erase n).filter (fun m => !r.contains m) = l.filter (fun m => !(n :: r).contains m) := by
+  rw [hnd.erase_eq_filter n, List.filter_filter]
+  apply List.filter_congr
+  intro m _
+  by_cases hmn : m = n
+  · subst hmn; simp
+  · have : ¬ n = m := fun h => hmn h.symm
+    simp [hmn, this]
+
+theorem removeLoop_rt : ∀ (todo : List (String × Bool)) (d : NodeD) (p : Nat) (e : EdgeD) (X : T),
+    X.noSingleBelow = true → (d.name :: X.leaves).Nodup → (todo.map (·.1)).Nodup →
+    (∀ n ∈ todo.map (·.1), n ∈ d.name :: X.leaves) →
+    3 + (flagged todo).length ≤ (d.name :: X.leaves).length →
+    ∃ t', removeLoop todo (.node d p [(e, X)]) = .ok t' ∧
+      t'.tipNames.Perm ((d.name :: X.leaves).filter fun n => !(flagged todo).contains n) ∧
+      t'.noSingle = true ∧ t'.tipNames.Nodup ∧
+      (if (flagged todo).contains d.name then 3 ≤ t'.kids.length else t'.kids.length = 1 ∧ t'.name = d.name) ∧
+      ∀ K : List String, K.Nodup → (∀ a ∈ K, a ∈ t'.tipNames) → Ind K (splitsL [(e, X)]) t'.splits
+  | [], d, p, e, X, hns, hnd, _, _, _ => by
+    refine ⟨_, rfl, ?_, by simpa [T.noSingle, noSingleL] using hns, by rw [tipNames_rt]; exact hnd, ?_,
+      fun K _ _ => Ind.refl _⟩
+    · rw [tipNames_rt]
+      have : ((d.name :: X.leaves).filter fun _ => true) = d.name :: X.leaves := List.filter_eq_self.2 (by simp)
+      simp [flagged, this]
+    · simp [flagged, T.name]
+  | (n, false) :: r, d, p, e, X, hns, hnd, htodo, hsub, hcount => by
+    have hn : n ∈ d.name :: X.leaves := hsub n (by simp)
+    have hf : flagged ((n, false) :: r) = flagged r := by simp [flagged]
+    rw [hf] at hcount ⊢
+    simp only [List.map_cons, List.nodup_cons] at htodo
+    obtain ⟨t', g1, g2⟩ := removeLoop_rt r d p e X hns hnd htodo.2
+      (fun m hm => hsub m (by simp at hm ⊢; exact Or.inr hm)) hcount
+    refine ⟨t', ?_, g2⟩
+    simp only [removeLoop, tipNames_rt]
+    simp [hn, g1]
+  | (n, true) :: r, d, p, e, X, hns, hnd, htodo, hsub, hcount => by
+    have hn : n ∈ d.name :: X.leaves := hsub n (by simp)
+    have hf : flagged ((n, true) :: r) = n :: flagged r := by simp [flagged]
+    rw [hf] at hcount ⊢
+    simp only [List.map_cons, List.nodup_cons] at htodo
+    have hX3 : 3 ≤ X.leaves.length := by simp at hcount; omega
+    have hXn : X.leaves.Nodup := (List.nodup_cons.1 hnd).2
+    have hrn : d.name ∉ X.leaves := (List.nodup_cons.1 hnd).1
+    by_cases hx : d.name = n
+    · -- the tip root itself goes
+      subst hx
+      obtain ⟨t1, h1, h2, h3, h4, h5⟩ := removeTip_rt_remove d p e X hns hnd hX3
+      have h41 : t1.kids.length ≠ 1 := by omega
+      have hnd1 : t1.tipNames.Nodup := h2.nodup_iff.2 hXn
+      have hsub1 : ∀ m ∈ r.map (·.1), m ∈ t1.tipNames := by
+        intro m hm
+        have hmn : m ≠ d.name := by intro h; subst h; exact htodo.1 hm
+        have := hsub m (by simp at hm ⊢; exact Or.inr hm)
+        exact h2.mem_iff.2 ((List.mem_cons.1 this).resolve_left hmn)
+      have hc1 : 3 + (flagged r).length ≤ t1.tipNames.length := by
+        rw [h2.length_eq]; simp at hcount; omega
+      obtain ⟨t', g1, g2, g3, g4, g5⟩ := removeLoop_spec r t1 h41 h3 hnd1 htodo.2 hsub1 hc1
+      have hI := removeLoop_ind r t1 h41 h3 hnd1 htodo.2 hsub1 hc1 t' g1
+      have hU := removeLoop_unrooted r t1 h41 h3 hnd1 htodo.2 hsub1 hc1 h4 t' g1
+      have herase : (d.name :: X.leaves).erase d.name = X.leaves := by simp
+      refine ⟨t', ?_, ?_, g3, g5, by simp [hU], fun K _ hK => ?_⟩
+      · simp only [removeLoop, tipNames_rt]
+        simp [h1, g1]
+      · rw [← filter_erase_flag hnd, herase]
+        exact g2.trans (h2.filter _)
+      · have hK1 : ∀ a ∈ K, a ∈ t1.tipNames := fun a ha => (List.mem_filter.1 (g2.mem_iff.1 (hK a ha))).1
+        exact Ind.trans (h5 K (fun a ha => h2.mem_iff.1 (hK1 a ha))) (hI K hK)
+    · -- a tip below the root goes, the tip root stays
+      obtain ⟨e', X', h1, h2, h3, h5⟩ := removeTip_rt_keep n d p e X hx hns hnd hX3
+      have hnd1 : (d.name :: X'.leaves).Nodup := h2.nodup_iff.2 (hnd.erase n)
+      have hsub1 : ∀ m ∈ r.map (·.1), m ∈ d.name :: X'.leaves := by
+        intro m hm
+        have hmn : m ≠ n := by intro h; subst h; exact htodo.1 hm
+        exact h2.mem_iff.2 ((List.mem_erase_of_ne hmn).2 (hsub m (by simp at hm ⊢; exact Or.inr hm)))
+      have hc1 : 3 + (flagged r).length ≤ (d.name :: X'.leaves).length := by
+        rw [h2.length_eq, List.length_erase_of_mem hn]; simp at hcount ⊢; omega
+      obtain ⟨t', g1, g2, g3, g4, g5, g6⟩ := removeLoop_rt r d p e' X' h3 hnd1 htodo.2 hsub1 hc1
+      refine ⟨t', ?_, ?_, g3, g4, ?_, fun K hKn hK => ?_⟩
+      · simp only [removeLoop, tipNames_rt]
+        simp [hn, h1, g1]
+      · rw [← filter_erase_flag hnd]
+        exact g2.trans (h2.filter _)
+      · have : (n :: flagged r).contains d.name = (flagged r).contains d.name := by
+          simp [List.contains_cons, hx]
+        rw [this]; exact g5
+      · have hK1 : ∀ a ∈ K, a ∈ d.name :: X'.leaves :=
+          fun a ha => (List.mem_filter.1 (g2.mem_iff.1 (hK a ha))).1
+        exact Ind.trans (h5 K hKn hK1) (g6 K hKn hK)
+
+/-! ## lengths and supports when the result keeps a tip root -/
+
+theorem nd_of_outside {K : List String} {s : SplitE} (hK : K.Nodup) (hsn : s.below.Nodup)
+    (hsub : ∀ a ∈ s.below, a ∈ K) (hne : s.below ≠ []) {y : String} (hyK : y ∈ K) (hym : y ∉ s.below) :
+    nd K s = true := by
+  have hself : s.below.filter K.contains = s.below :=
+    List.filter_eq_self.2 (fun a ha => by simpa using hsub a ha)
+  rw [nd_eq, hself]
+  simp only [ne_eq, decide_eq_true_eq]
+  refine ⟨fun h0 => hne (List.length_eq_zero_iff.1 h0), fun hl => ?_⟩
+  have c := filter_length_compl K s.below.contains
+  have e := count_swap hK hsn
+  rw [hself] at e
+  have : y ∈ K.filter (fun n => !s.below.contains n) := by simp [hyK, hym]
+  have : 1 ≤ (K.filter (fun n => !s.below.contains n)).length := List.length_pos_of_mem this
+  omega
+
+theorem nd_all_rt (t' : T) (K : List String) (h1 : t'.kids.length = 1) (hnd : t'.tipNames.Nodup)
+    (hperm : t'.tipNames.Perm K) : ∀ s ∈ t'.splits, nd K s = true := by
+  intro s hs
+  have hK : K.Nodup := hperm.nodup_iff.1 hnd
+  have hsn : s.below.Nodup := splits_below_nodup t' hnd s hs
+  obtain ⟨d, p, kids⟩ := t'
+  simp only [T.kids_node] at h1
+  match kids, h1, hnd, hperm, hs with
+  | [(e, X)], _, hnd, hperm, hs =>
+    rw [tipNames_rt] at hnd hperm
+    have hrn : d.name ∉ X.leaves := (List.nodup_cons.1 hnd).1
+    have hb : ∀ a ∈ s.below, a ∈ X.leaves := by
+      intro a ha
+      have := below_subL [(e, X)] s hs a ha
+      simpa [leavesL] using this
+    exact nd_of_outside hK hsn (fun a ha => hperm.mem_iff.1 (List.mem_cons_of_mem _ (hb a ha)))
+      (below_ne_nilL [(e, X)] s hs) (hperm.mem_iff.1 (List.mem_cons_self ..)) (fun h => hrn (hb _ h))
+
+theorem data_of_ind_gen (t t' : T) (p : String → Bool) (hT : t.tipNames.Nodup)
+    (hperm : t'.tipNames.Perm (t.tipNames.filter p))
+    (hnd_all : ∀ s ∈ t'.splits, nd (t.tipNames.filter p) s = true)
+    (hI : Ind (t.tipNames.filter p) t.splits t'.splits) (hg : LensGood t.splits) :
+    t'.usplits.Perm ((restrictU t (t.tipNames.filter p)).filter
+      (fun s => decide (2 ≤ lightSize (t.tipNames.filter p) s.side))) ∧
+    t'.tipLens.Perm (((restrictU t (t.tipNames.filter p)).filter
+      (fun s => decide (lightSize (t.tipNames.filter p) s.side ≤ 1))).map (fun s => (s.side, s.len))) := by
+  have hK : (t.tipNames.filter p).Nodup := hT.filter _
+  have hnd' : t'.tipNames.Nodup := hperm.nodup_iff.2 hK
+  have hk : t.tipNames.filter (t.tipNames.filter p).contains = t.tipNames.filter p := by
+    apply List.filter_congr
+    intro x hx
+    simp [hx]
+  -- the two folds
+  have hY := (ind_ueq hK hI hg).1 [] (by simp [SidesNodup]) (by intro x hx; cases hx)
+  have hall : t'.splits.filter (nd (t.tipNames.filter p)) = t'.splits :=
+    List.filter_eq_self.2 hnd_all
+  have eY : ufoldU (UL (t.tipNames.filter p) t.splits) [] =
+      (ufoldU ((t.splits.filter (nd (t.tipNames.filter p))).map (toU (t.tipNames.filter p))) []).map
+        (normU (t.tipNames.filter p)) := by
+    rw [← ufoldU_normU]; simp only [UL, List.map_map, List.map_nil]; rfl
+  have eY' : ufoldU (UL (t.tipNames.filter p) t'.splits) [] =
+      (ufoldU (t'.splits.map (toU (t.tipNames.filter p))) []).map (normU (t.tipNames.filter p)) := by
+    rw [← ufoldU_normU]; simp only [UL, hall, List.map_map, List.map_nil]; rfl
+  rw [eY, eY'] at hY
+  have eR := restrictU_eq t (t.tipNames.filter p)
+  rw [hk] at eR
+  have eA : t'.usplitsAll = (ufoldU (t'.splits.map (toU (t.tipNames.filter p))) []).mergeSort uLe := by
+    rw [T.usplitsAll_eq, toU_perm_all hperm]
+  constructor
+  · unfold T.usplits
+    have hfun : (fun s : USplit => decide (2 ≤ lightSize t'.tipNames s.side)) =
+        (fun s : USplit => decide (2 ≤ lightSize (t.tipNames.filter p) s.side)) := by
+      funext s; rw [lightSize_perm_all hperm]
+    rw [hfun, eA, eR]
+    refine ((List.mergeSort_perm _ _).filter _).trans ?_
+    refine List.Perm.trans ?_ ((List.mergeSort_perm _ _).filter _).symm
+    rw [← filter_nt_normU, ← filter_nt_normU (t.tipNames.filter p) (ufoldU ((t.splits.filter _).map _) [])]
+    exact (hY.filter _).symm
+  · unfold T.tipLens
+    have hfun : (fun s : USplit => decide (lightSize t'.tipNames s.side ≤ 1)) =
+        (fun s : USplit => decide (lightSize (t.tipNames.filter p) s.side ≤ 1)) := by
+      funext s; rw [lightSize_perm_all hperm]
+    rw [hfun, eA, eR]
+    refine (((List.mergeSort_perm _ _).filter _).map _).trans ?_
+    refine List.Perm.trans ?_ (((List.mergeSort_perm _ _).filter _).map _).symm
+    rw [← filter_triv_normU, ← filter_triv_normU (t.tipNames.filter p) (ufoldU ((t.splits.filter _).map _) [])]
+    exact ((hY.filter _).map _).symm
+
+
+/-! ## `RemoveTips` on any tree without single-child inner node -/
+
+theorem wfR_iff (t : T) : wfR t = true ↔ t.tipNames.Nodup ∧ t.noSingle = true := by
+  simp [wfR, uniq, hasDup_false_iff]
+
+theorem nd_all_any (t' : T) (K : List String) (hnd : t'.tipNames.Nodup) (hperm : t'.tipNames.Perm K) :
+    ∀ s ∈ t'.splits, nd K s = true := by
+  by_cases h1 : t'.kids.length = 1
+  · exact nd_all_rt t' K h1 hnd hperm
+  · by_cases h0 : t'.kids.length = 0
+    · intro s hs
+      obtain ⟨d, p, k⟩ := t'
+      simp only [T.kids_node, List.length_eq_zero_iff] at h0
+      subst h0
+      simp [T.splits, splitsL] at hs
+    · exact nd_all t' K (by omega) hnd hperm
+
+/-- everything the theorems of `Proofs/C06.lean` need about the loop, for both shapes of root -/
+theorem removeTips_core (t : T) (S : List String) (rev : Bool) (hnd : t.tipNames.Nodup)
+    (hns : t.noSingle = true) (h₃ : 3 ≤ (kept t S rev).length) :
+    ∃ t', removeLoop (workList t S rev) t = .ok t' ∧ t'.tipNames.Perm (kept t S rev) ∧
+      t'.noSingle = true ∧ t'.tipNames.Nodup ∧ rootAfterOK t S rev t' = true ∧
+      Ind (kept t S rev) t.splits t'.splits := by
+  have hcount : 3 + (flagged (workList t S rev)).length ≤ t.tipNames.length := by
+    rw [flagged_workList]
+    have := filter_length_compl t.tipNames (fun n => S.contains n != rev)
+    have e : (t.tipNames.filter fun n => !(S.contains n != rev)) = kept t S rev := by
+      unfold kept; apply List.filter_congr; intro n _; cases S.contains n <;> cases rev <;> rfl
+    rw [e] at this
+    unfold toRemove; omega
+  have hmap : (workList t S rev).map (·.1) = t.tipNames := by
+    simp [workList, Function.comp_def]
+  have hkeptEq : (t.tipNames.filter fun n => !(toRemove t S rev).contains n) = kept t S rev := by
+    unfold kept toRemove
+    apply List.filter_congr
+    intro n hn
+    simp [hn]
+    cases S.contains n <;> cases rev <;> simp
+  have hKn : (kept t S rev).Nodup := hnd.filter _
+  by_cases h1 : t.kids.length = 1
+  · obtain ⟨d, p, kids⟩ := t
+    simp only [T.kids_node] at h1
+    match kids, h1, hnd, hns, hcount, hmap, hkeptEq, hKn, h₃ with
+    | [(e, X)], _, hnd, hns, hcount, hmap, hkeptEq, hKn, h₃ =>
+      rw [tipNames_rt] at hnd hcount hmap hkeptEq
+      have hnsX : X.noSingleBelow = true := by simpa [T.noSingle, noSingleL] using hns
+      obtain ⟨t', g1, g2, g3, g4, g5, g6⟩ := removeLoop_rt (workList (.node d p [(e, X)]) S rev) d p e X hnsX hnd
+        (hmap ▸ hnd) (fun n hn => hmap ▸ hn) hcount
+      rw [flagged_workList, hkeptEq] at g2
+      refine ⟨t', g1, g2, g3, g4, ?_, g6 _ hKn (fun a ha => g2.mem_iff.2 ha)⟩
+      rw [flagged_workList] at g5
+      have hdn : d.name ∈ (T.node d p [(e, X)]).tipNames := by rw [tipNames_rt]; simp
+      have hc : (toRemove (.node d p [(e, X)]) S rev).contains d.name =
+          !(kept (.node d p [(e, X)]) S rev).contains d.name := by
+        unfold toRemove kept
+        rw [Bool.eq_iff_iff]
+        simp only [List.contains_eq_mem, List.mem_filter, decide_eq_true_eq, Bool.not_eq_true',
+          decide_eq_false_iff_not, hdn, true_and]
+        cases S.contains d.name <;> cases rev <;> simp
+      simp only [rootAfterOK, T.kids_node, List.length_cons, List.length_nil, Nat.zero_add, beq_self_eq_true,
+        if_true, T.name, T.d_node]
+      by_cases hk : (kept (.node d p [(e, X)]) S rev).contains d.name = true
+      · rw [hc, hk] at g5
+        simp only [Bool.not_true, Bool.false_eq_true, if_false] at g5
+        have g52 : t'.d.name = d.name := g5.2
+        have hkm : d.name ∈ kept (.node d p [(e, X)]) S rev := by simpa using hk
+        simp [hkm, g5.1, g52]
+      · have hk' : (kept (.node d p [(e, X)]) S rev).contains d.name = false := by simpa using hk
+        rw [hc, hk'] at g5
+        simp only [Bool.not_false, if_true] at g5
+        simp only [hk', Bool.false_eq_true, if_false, decide_eq_true_eq]
+        exact g5
+  · have hsub : ∀ n ∈ (workList t S rev).map (·.1), n ∈ t.tipNames := fun n hn => hmap ▸ hn
+    obtain ⟨t', g1, g2, g3, g4, g5⟩ := removeLoop_spec (workList t S rev) t h1 hns hnd (hmap ▸ hnd) hsub hcount
+    rw [flagged_workList, hkeptEq] at g2
+    have hI := removeLoop_ind (workList t S rev) t h1 hns hnd (hmap ▸ hnd) hsub hcount t' g1
+      (kept t S rev) (fun a ha => g2.mem_iff.2 ha)
+    have hU := removeLoop_unrooted (workList t S rev) t h1 hns hnd (hmap ▸ hnd) hsub hcount
+    refine ⟨t', g1, g2, g3, g5, ?_, hI⟩
+    have hb : (t.kids.length == 1) = false := by simpa using h1
+    simp only [rootAfterOK, hb, Bool.false_eq_true, if_false, Bool.and_eq_true, bne_iff_ne, ne_eq,
+      Bool.or_eq_true, decide_eq_true_eq]
+    refine ⟨g4, ?_⟩
+    by_cases h2 : t.kids.length ≤ 2
+    · exact Or.inl h2
+    · have := hU (by omega) t' g1
+      exact Or.inr (by omega)
+
+/-! ## a single-child node just below the root (outside the quantifier of the property) -/
+
+theorem rmNode_notFound_of_not_mem (x : String) (t : T) (h : x ∉ t.leaves) : rmNode x t = .notFound := by
+  have hl := rmNode_leaves x t
+  cases hn : rmNode x t with
+  | notFound => rfl
+  | repl t' => rw [hn] at hl; exact absurd hl.1 h
+  | gone => rw [hn] at hl; simp only [OutLeaves] at hl; rw [hl] at h; simp at h
+  | splice e c => rw [hn] at hl; exact absurd hl.1 h
+
 end Gotree.C06
